@@ -1,0 +1,40 @@
+//go:build verif
+
+package machine
+
+// Verification hooks, compiled only with `-tags verif`. Add-only: nothing in
+// this file is referenced by the regular build.
+
+// VerifSetQueueTick overrides the queue tick (used to place the source
+// machine of an RPC server at arbitrary clock snapshots).
+func (m *Machine) VerifSetQueueTick(tick uint64) {
+	m.queueMx.Lock()
+	defer m.queueMx.Unlock()
+	m.queueTick = tick
+}
+
+// VerifSetMachineTick overrides the machine tick.
+func (m *Machine) VerifSetMachineTick(tick uint32) {
+	m.schemaMx.Lock()
+	defer m.schemaMx.Unlock()
+	m.machineTick = tick
+}
+
+// VerifSetClock overrides the clock and the active states (parity) of the
+// machine, keeping the state names.
+func (m *Machine) VerifSetClock(t Time) {
+	m.activeStatesMx.Lock()
+	defer m.activeStatesMx.Unlock()
+	m.schemaMx.Lock()
+	defer m.schemaMx.Unlock()
+	m.activeStates = nil
+	for i, name := range m.stateNames {
+		if i >= len(t) {
+			break
+		}
+		m.clock[name] = t[i]
+		if IsActiveTick(t[i]) {
+			m.activeStates = append(m.activeStates, name)
+		}
+	}
+}
